@@ -1242,6 +1242,11 @@ def generate_cases(tier, seed, kinds=('sentence', 'mutation', 'tests', 'soup', '
             cases.append({'text': join_tokens(sn, rng), 'origin': 'spelling'})
             sw = [{'.': '|', '|': '.'}.get(t, t) if rng.random() < 0.7 else t for t in sn]
             cases.append({'text': join_tokens(sw, rng), 'origin': 'spelling'})
+        # one-token programs with every kind of insignificant surrounding (special cases of a parser tend to live here)
+        for t in ['x', 'total', '%a b%', '%x%', '_', 'x1', '1', '1.5', '"s"', 'True', 'None', '[]', '{}', 'f()', 'not x', '-x', 'x.f()', 'x | f', 'x[0]', 'r"a"', 'é']:
+            for v in [t, t + '\n', t + '\r\n', t + ';', '\n' + t, t + ' ', ' ' + t, t + '\n\n', t + '\t', '(' + t + ')', t + ' # c', t + '\n# c', '\r\n' + t + '\r\n',
+                      t + ';\n', t + '\n;', '\t' + t + '\n ', t + '\n' + t, t + ';' + t]:
+                cases.append({'text': v, 'origin': 'spelling'})
         for s in ['-r.f(a)', '-r | f(a)', 'not r.f()', 'not r | f()', 'x ** -r.f(a)', 'y = -r[0].f(a).g()', '-r.f', '- r | f', 'a.f(b).g(c) | h(d)',
                   '-a ** b.f()', 'not a in b.f()', 'a if -b.f() else c | g()', 'a => -a.f()', '[-a.f(), not b | g()]', '{"k": -a.f()}']:
             cases.append({'text': s, 'origin': 'spelling'})
